@@ -27,7 +27,7 @@ PROPS = {
                       'rigid.Cup.__init__', 'rigid.Cap.__init__', 'rigid.cups', 'rigid.caps', 'monoidal.Box.__init__',
                       'rigid.Box.__init__', 'monoidal.Diagram.__init__[accepts]', 'monoidal.Diagram.swap', 'rigid.Diagram.swap',
                       'monoidal.Swap.__init__', 'rigid.Swap.__init__', 'lemma:canary:then.len', 'rigid.Diagram.transpose',
-                      'monoidal.Functor.__call__[Swap]'] + TYPE_VC + ADJOINT_VC + DAGGER_VC,
+                      'monoidal.Functor.__call__[Swap]', 'monoidal.Diagram.permutation'] + TYPE_VC + ADJOINT_VC + DAGGER_VC,
         sym=[], rtc='C01',
         level_text='Proof of the representation invariant wf (boxes/offsets scan from dom to cod, each box finds its '
                    'domain at its offset, the layer view agrees) for the constructor scan (establishes wf or raises, '
@@ -39,7 +39,7 @@ PROPS = {
                    'diagrams and types, Box.__init__ and the four dagger bodies: the real bodies are re-read '
                    'from /repo on every run, verified against functional contracts, and wf(result) is discharged for '
                    'all well-formed inputs of any length and width. Producers not yet under a discharged contract '
-                   '(foliation, flatten, permutations, snake removal, rigid functor images of boxes; transposes and the functor '
+                   '(foliation, flatten, snake removal, rigid functor images of boxes; transposes, permutations and the functor '
                    'image of a swap are under contract) '
                    'are covered by the bounded stand-in only and not counted as proved.',
         level_note='Trusted: pyvc + solvers; L-ind, L-ext, L-box (a box is determined by the fields its __eq__ compares). The '
@@ -285,7 +285,8 @@ PROPS = {
         title='Swaps and permutations realise exactly the requested wire permutation',
         level='exploration',
         vc=['monoidal.Diagram.swap', 'rigid.Diagram.swap', 'monoidal.Swap.__init__', 'rigid.Swap.__init__',
-            'monoidal.Diagram.__init__[accepts]', 'lemma:canary:constructors'],
+            'monoidal.Diagram.__init__[accepts]', 'lemma:canary:constructors', 'monoidal.Diagram.permutation',
+            'monoidal.Functor.__call__[Swap]', 'monoidal.Swap.dagger'],
         sym=[], rtc='C10',
         level_text='The wire map (the clause that gives the property its name) is a bounded stand-in: in each of the five '
                    'classes, swap(l, r) for all types of length <= 2 (thorough 3) over 3 atoms and permutation(perm, dom) for '
@@ -298,10 +299,16 @@ PROPS = {
                    'the layers (right[:i], Swap, right[i+1:]) are exhibited in closed form, their chain conditions are '
                    'discharged pointwise and the acceptance contract of the constructor, proved here, says it computes '
                    'exactly them); recursion on a shorter left side. Swap constructors establish dom = l @ r, cod = r @ l and '
-                   'refuse exactly the non-single-object types. Types being sequences of names, the typing clause tells '
+                   'refuse exactly the non-single-object types. The typing and refusal clauses of permutation(perm, dom) for '
+                   'lists and types of any length: the real loop is verified with the invariant "the first i entries of perm are '
+                   '0..i-1 and every value >= i still occurs at a position >= i" (witness function carried by hand), so '
+                   'perm.index(i) exists and is >= i, the four slices are in range, every composition is well typed, the result '
+                   'is a well-formed diagram dom -> a type of the same length, and ValueError is raised exactly for '
+                   'non-permutations of range(n) or a wrong length (set equality and list.index by their T2 semantics). '
+                   'Types being sequences of names, the typing clause tells '
                    'wires of different types apart (so the seeded C10_3 is refuted) but not two wires of the same type.',
-        level_note='Category exploration because the wire map and permutation() are not under a discharged contract; the VC part '
-                   'is counted as obligations in the evidence, not as a proof of the property. Assumed at call sites: Upgrade.',
+        level_note='Category exploration because the wire map (which wire goes where, for swap and for permutation) is not under '
+                   'a discharged contract; the VC part is counted as obligations in the evidence, not as a proof of the property.',
         technique='bounded run-time contracts with an independent wire-tracking oracle; VCs from the real AST for the typing '
                   'clause of swap (closed-form layer witness + acceptance contract of the constructor)'),
     'C17': dict(
